@@ -403,6 +403,16 @@ type SecurityManager struct {
 
 // NewAuthenticator creates a new authenticator with the given config and stream
 func NewAuthenticator(config *SecurityConfig, s *stream.Stream) *Authenticator {
+	// Work on a private shallow copy of the configuration: this connection's
+	// ephemeral ECDH public key is stored in it below, and callers commonly share
+	// one SecurityConfig between concurrent connections (client.ConnectAndAuthenticate*,
+	// SecurityManager). Writing into the caller's object was a data race that also let
+	// one handshake advertise another handshake's public key.
+	if config != nil {
+		c := *config
+		config = &c
+	}
+
 	// Generate ECDH key pair for the handshake
 	ecdhPrivKey, err := ecdh.P256().GenerateKey(rand.Reader)
 	if err != nil {
